@@ -10,6 +10,7 @@
      Rep(cn, fs)    counted array (count chosen by the instance)  Str0(n)      zero terminated string
      Fix(n, k)      k opaque bytes (4CC, uuid, key id)            Rest(n, k)   k bytes to the end of the box
      Kids(ts)       child boxes (one instance of each listed layout, default shape)
+     KidsOpt(ts)    the same for a pure container; no child at all (empty container) when the instance count is 0
 
    An instance = [box, ver, flags, cnt (count used by every Rep), pick = (field index, boundary kind)].
    Serialize gives the bytes and the don't-care mask (mask byte = the don't-care bits of that byte; 255 for reserved bytes). Every field gets a filler
@@ -41,6 +42,7 @@ Str0(n) == F("str0", n, 0, 0, Always, <<>>, <<>>)
 Fix(n, k) == F("u", n, k, k, Always, <<>>, <<>>)
 Rest(n, k) == F("u", n, k, k, Always, <<>>, <<>>)
 Kids(ts) == F("kids", "", 0, 0, Always, <<>>, ts)
+KidsOpt(ts) == F("kids0", "", 0, 0, Always, <<>>, ts)       \* the children of a pure container: none at all when the instance count is 0
 
 Zeros(n) == [i \in 1 .. n |-> 0]
 Unity == <<0, 1, 0, 0, 0, 0, 0, 0, 0, 0, 0, 0, 0, 0, 0, 0, 0, 1, 0, 0, 0, 0, 0, 0, 0, 0, 0, 0, 0, 0, 0, 0, 64, 0, 0, 0>>
@@ -129,24 +131,24 @@ Layout(b) ==
     [] b = "mp4a" -> L("mp4a", FALSE, {0}, {}, <<Res(Zeros(6)), U("data_reference_index", 2), Res(Zeros(8)), U("channelcount", 2), U("samplesize", 2), Res(Zeros(2)), Res(Zeros(2)),
                         U("samplerate", 4), Kids(<<"btrt">>)>>)
     [] b = "stsd" -> L("stsd", TRUE, {0}, {}, <<Const("entry_count", <<0, 0, 0, 2>>), Kids(<<"avc1", "mp4a">>)>>)
-    [] b = "edts" -> L("edts", FALSE, {0}, {}, <<Kids(<<"elst">>)>>)
-    [] b = "dinf" -> L("dinf", FALSE, {0}, {}, <<Kids(<<"dref">>)>>)
-    [] b = "mvex" -> L("mvex", FALSE, {0}, {}, <<Kids(<<"mehd", "trex">>)>>)
-    [] b = "stbl" -> L("stbl", FALSE, {0}, {}, <<Kids(<<"stsd", "stts", "ctts", "stsc", "stsz", "stco", "stss", "sdtp">>)>>)
-    [] b = "minf" -> L("minf", FALSE, {0}, {}, <<Kids(<<"vmhd", "dinf", "stbl">>)>>)
-    [] b = "mdia" -> L("mdia", FALSE, {0}, {}, <<Kids(<<"mdhd", "hdlr", "elng", "minf">>)>>)
-    [] b = "trak" -> L("trak", FALSE, {0}, {}, <<Kids(<<"tkhd", "edts", "mdia">>)>>)
-    [] b = "moov" -> L("moov", FALSE, {0}, {}, <<Kids(<<"mvhd", "trak", "mvex", "pssh">>)>>)
-    [] b = "traf" -> L("traf", FALSE, {0}, {}, <<Kids(<<"tfhd", "tfdt", "trun", "sbgp", "subs">>)>>)
-    [] b = "moof" -> L("moof", FALSE, {0}, {}, <<Kids(<<"mfhd", "traf">>)>>)
-    [] b = "mfra" -> L("mfra", FALSE, {0}, {}, <<Kids(<<"tfra", "mfro">>)>>)
-    [] b = "sinf" -> L("sinf", FALSE, {0}, {}, <<Kids(<<"frma", "schm", "schi">>)>>)
-    [] b = "schi" -> L("schi", FALSE, {0}, {}, <<Kids(<<"tenc">>)>>)
+    [] b = "edts" -> L("edts", FALSE, {0}, {}, <<KidsOpt(<<"elst">>)>>)
+    [] b = "dinf" -> L("dinf", FALSE, {0}, {}, <<KidsOpt(<<"dref">>)>>)
+    [] b = "mvex" -> L("mvex", FALSE, {0}, {}, <<KidsOpt(<<"mehd", "trex">>)>>)
+    [] b = "stbl" -> L("stbl", FALSE, {0}, {}, <<KidsOpt(<<"stsd", "stts", "ctts", "stsc", "stsz", "stco", "stss", "sdtp">>)>>)
+    [] b = "minf" -> L("minf", FALSE, {0}, {}, <<KidsOpt(<<"vmhd", "dinf", "stbl">>)>>)
+    [] b = "mdia" -> L("mdia", FALSE, {0}, {}, <<KidsOpt(<<"mdhd", "hdlr", "elng", "minf">>)>>)
+    [] b = "trak" -> L("trak", FALSE, {0}, {}, <<KidsOpt(<<"tkhd", "edts", "mdia">>)>>)
+    [] b = "moov" -> L("moov", FALSE, {0}, {}, <<KidsOpt(<<"mvhd", "trak", "mvex", "pssh">>)>>)
+    [] b = "traf" -> L("traf", FALSE, {0}, {}, <<KidsOpt(<<"tfhd", "tfdt", "trun", "sbgp", "subs">>)>>)
+    [] b = "moof" -> L("moof", FALSE, {0}, {}, <<KidsOpt(<<"mfhd", "traf">>)>>)
+    [] b = "mfra" -> L("mfra", FALSE, {0}, {}, <<KidsOpt(<<"tfra", "mfro">>)>>)
+    [] b = "sinf" -> L("sinf", FALSE, {0}, {}, <<KidsOpt(<<"frma", "schm", "schi">>)>>)
+    [] b = "schi" -> L("schi", FALSE, {0}, {}, <<KidsOpt(<<"tenc">>)>>)
     [] b = "cslg" -> L("cslg", TRUE, {0, 1}, {}, <<VU("compositionToDTSShift", 4, 8), VU("leastDecodeToDisplayDelta", 4, 8), VU("greatestDecodeToDisplayDelta", 4, 8),
                         VU("compositionStartTime", 4, 8), VU("compositionEndTime", 4, 8)>>)
     [] b = "cdsc" -> L("cdsc", FALSE, {0}, {}, <<Rep(<<U("track_ID", 4)>>)>>)
     [] b = "hint" -> L("hint", FALSE, {0}, {}, <<Rep(<<U("track_ID", 4)>>)>>)
-    [] b = "tref" -> L("tref", FALSE, {0}, {}, <<Kids(<<"cdsc", "hint">>)>>)
+    [] b = "tref" -> L("tref", FALSE, {0}, {}, <<KidsOpt(<<"cdsc", "hint">>)>>)
     [] b = "trep" -> L("trep", TRUE, {0}, {}, <<U("track_ID", 4), Kids(<<"zzzz">>)>>)
     [] b = "leva" -> L("leva", TRUE, {0}, {}, <<Cnt("level_count", 1), Rep(<<U("track_ID", 4), Const("padding_flag_assignment_type", <<130>>)>>)>>)
     [] b = "leva-grouping" -> L("leva", TRUE, {0}, {}, <<Cnt("level_count", 1), Rep(<<U("track_ID", 4), Const("padding_flag_assignment_type", <<1>>), Fix("grouping_type", 4),
@@ -171,11 +173,12 @@ Layout(b) ==
     [] b = "vsid" -> L("vsid", FALSE, {0}, {}, <<U("source_ID", 4)>>)
     [] b = "vtta" -> L("vtta", FALSE, {0}, {}, <<Fix("cue_additional_text", 5)>>)
     [] b = "vtte" -> L("vtte", FALSE, {0}, {}, <<>>)
-    [] b = "vttc" -> L("vttc", FALSE, {0}, {}, <<Kids(<<"vsid", "iden", "ctim", "sttg", "payl">>)>>)
+    [] b = "vttc" -> L("vttc", FALSE, {0}, {}, <<KidsOpt(<<"vsid", "iden", "ctim", "sttg", "payl">>)>>)
     [] b = "mime" -> L("mime", TRUE, {0}, {}, <<Str0("content_type")>>)
-    [] b = "meta" -> L("meta", TRUE, {0}, {}, <<Kids(<<"hdlr", "ilst">>)>>)
-    [] b = "ilst" -> L("ilst", FALSE, {0}, {}, <<Kids(<<"Ctoo">>)>>)
-    [] b = "Ctoo" -> L("Ctoo", FALSE, {0}, {}, <<Kids(<<"data">>)>>)
+    [] b = "meta" -> L("meta", TRUE, {0}, {}, <<KidsOpt(<<"hdlr", "ilst">>)>>)
+    [] b = "meta-qt" -> L("meta", FALSE, {0}, {}, <<KidsOpt(<<"hdlr", "ilst">>)>>)       \* QuickTime meta atom: no version / flags, recognised by its first child
+    [] b = "ilst" -> L("ilst", FALSE, {0}, {}, <<KidsOpt(<<"Ctoo">>)>>)
+    [] b = "Ctoo" -> L("Ctoo", FALSE, {0}, {}, <<KidsOpt(<<"data">>)>>)
     [] b = "data" -> L("data", FALSE, {0}, {}, <<U("type_indicator", 4), U("locale_indicator", 4), Rep(<<U("value", 1)>>)>>)
     [] b = "evte" -> L("evte", FALSE, {0}, {}, <<Res(Zeros(6)), U("data_reference_index", 2), Kids(<<"btrt", "silb">>)>>)
     [] b = "silb" -> L("silb", TRUE, {0}, {}, <<Cnt("number_of_schemes", 4), Rep(<<Str0("scheme_id_uri"), Str0("value"), Const("at_least_one_flag", <<1>>)>>), Const("other_schemes_flag", <<0>>)>>)
@@ -228,7 +231,7 @@ Layout(b) ==
     [] b = "tlou-v1" -> L("tlou", TRUE, {1}, {}, <<Const("loudness_info_type_loudness_base_count", <<1>>), UM("reserved_EQ_set_ID", 1, <<192>>), UM("reserved_downmix_ID_DRC_set_ID", 2, <<224, 0>>),
                         U("bs_sample_peak_level_bs_true_peak_level", 3), U("measurement_system_for_TP_reliability_for_TP", 1),
                         Cnt("measurement_count", 1), Rep(<<U("method_definition", 1), U("method_value", 1), U("measurement_system_reliability", 1)>>)>>)
-    [] b = "ludt" -> L("ludt", FALSE, {0}, {}, <<Kids(<<"tlou", "alou">>)>>)
+    [] b = "ludt" -> L("ludt", FALSE, {0}, {}, <<KidsOpt(<<"tlou", "alou">>)>>)
     [] b = "colr-nclc" -> L("colr", FALSE, {0}, {}, <<Const("colour_type", <<110, 99, 108, 99>>), U("colour_primaries", 2), U("transfer_characteristics", 2), U("matrix_coefficients", 2)>>)
     [] b = "colr-prof" -> L("colr", FALSE, {0}, {}, <<Const("colour_type", <<112, 114, 111, 102>>), Rep(<<U("ICC_profile", 1)>>)>>)
     [] b = "colr-nclx-limited" -> L("colr", FALSE, {0}, {}, <<Const("colour_type", <<110, 99, 108, 120>>), U("colour_primaries", 2), U("transfer_characteristics", 2), U("matrix_coefficients", 2),
@@ -238,7 +241,7 @@ Layout(b) ==
     [] b = "uuid-tfrf" -> L("uuid", FALSE, {0}, {}, <<Const("usertype", <<212, 128, 126, 242, 202, 57, 70, 149, 142, 84, 38, 203, 158, 70, 167, 159>>), Const("version_flags", <<1, 0, 0, 0>>), Cnt("fragment_count", 1),
                         Rep(<<U("fragment_absolute_time", 8), U("fragment_duration", 8)>>)>>)
     [] b = "cdat" -> L("cdat", FALSE, {0}, {}, <<Rep(<<U("data", 1)>>)>>)
-    [] b = "udta" -> L("udta", FALSE, {0}, {}, <<Kids(<<"zzzz">>)>>)
+    [] b = "udta" -> L("udta", FALSE, {0}, {}, <<KidsOpt(<<"zzzz">>)>>)
     [] b = "avc3" -> L("avc3", FALSE, {0}, {}, <<Res(Zeros(6)), U("data_reference_index", 2), Res(Zeros(2)), Res(Zeros(2)), Res(Zeros(12)), U("width", 2), U("height", 2),
                         U("horizresolution", 4), U("vertresolution", 4), Res(Zeros(4)), U("frame_count", 2), Const("compressorname_len", <<0>>), Const("compressorname_pad", Zeros(31)),
                         Const("depth", <<0, 24>>), Res(<<255, 255>>), Kids(<<"avcC", "btrt">>)>>)
@@ -263,7 +266,7 @@ Layout(b) ==
     [] b = "sync" -> L("sync", FALSE, {0}, {}, <<Rep(<<U("track_ID", 4)>>)>>)
     [] b = "vdep" -> L("vdep", FALSE, {0}, {}, <<Rep(<<U("track_ID", 4)>>)>>)
     [] b = "vplx" -> L("vplx", FALSE, {0}, {}, <<Rep(<<U("track_ID", 4)>>)>>)
-    [] b = "desc" -> L("desc", FALSE, {0}, {}, <<Kids(<<"zzzz", "free">>)>>)
+    [] b = "desc" -> L("desc", FALSE, {0}, {}, <<KidsOpt(<<"zzzz", "free">>)>>)
     [] b = "iods" -> L("iods", FALSE, {0}, {}, <<Rep(<<U("data", 1)>>)>>)
 
 \* ASCII codes of the four-character codes used above (TLA+ strings cannot be indexed)
@@ -431,7 +434,8 @@ Walk(fs, env, st) ==
                       [] f.t = "str0" -> One(st, f.n, "str0", StrBytes(st.i), <<>>)
                       [] f.t = "if" -> IF Holds(f.c, env.ver, env.flags) THEN Walk(f.f, env, st) ELSE [st EXCEPT !.i = st.i + Len(f.f)]
                       [] f.t = "rep" -> WalkRep(f.f, env, st, env.cnt)
-                      [] f.t = "kids" -> LET kb == [k \in 1 .. Len(f.v) |-> BoxBytes(f.v[k], [ver |-> 0, flags |-> 0, cnt |-> 1, pick |-> <<0, "none">>, hdr |-> "s32", rb |-> 0, rl |-> 0])]
+                      [] f.t = "kids0" /\ env.cnt = 0 -> st
+                      [] f.t \in {"kids", "kids0"} -> LET kb == [k \in 1 .. Len(f.v) |-> BoxBytes(f.v[k], [ver |-> 0, flags |-> 0, cnt |-> 1, pick |-> <<0, "none">>, hdr |-> "s32", rb |-> 0, rl |-> 0])]
                                              RECURSIVE Cat(_, _) Cat(acc, k) == IF k > Len(kb) THEN acc
                                                                                 ELSE Cat([b |-> acc.b \o kb[k].b, m |-> acc.m \o kb[k].m, i |-> acc.i,
                                                                                      f |-> acc.f \o [x \in 1 .. Len(kb[k].f) |-> [n |-> Layout(f.v[k]).type \o "." \o kb[k].f[x].n, t |-> kb[k].f[x].t, i |-> 0,
@@ -479,7 +483,7 @@ Parent(b) == CASE b \in {"tfhd", "tfdt", "trun", "sbgp", "subs", "saio", "saiz",
 \* value instances: one field at a time at a boundary value, for no flag / every flag / each single flag
 AllFlags(S) == LET RECURSIVE Sum(_) Sum(T) == IF T = {} THEN 0 ELSE LET x == CHOOSE y \in T : TRUE IN x + Sum(T \ {x}) IN Sum(S)
 Instances(b) == LET lay == Layout(b) IN
-    UNION {{[box |-> b, ver |-> v, flags |-> fl, cnt |-> c, pick |-> <<0, "none">>, hdr |-> h, wrap |-> w] : h \in {"s32", "s64"}, w \in {"none", "parent"}} :
+    UNION {{[box |-> b, ver |-> v, flags |-> fl, cnt |-> c, pick |-> <<0, "none">>, hdr |-> h, wrap |-> w] : h \in {"s32", "s64"}, w \in {"none", "parent", "sibling"}} :
            v \in lay.vers, fl \in SubsetSums(lay.flagbits), c \in Counts} \cup
     UNION {{[box |-> b, ver |-> v, flags |-> fl, cnt |-> c, pick |-> <<i, kd>>, hdr |-> "s32", wrap |-> "none"] : i \in 1 .. NFields(b, v, fl, c), kd \in Kinds} :
            v \in lay.vers, fl \in {0, AllFlags(lay.flagbits)} \cup (IF SingleFlagPicks THEN lay.flagbits ELSE {}), c \in PickCounts}
@@ -488,8 +492,13 @@ Instances(b) == LET lay == Layout(b) IN
 \* a 64-bit size header is kept for mdat only, every other box is written with a 32-bit header
 \* (normalisation N1 of dontcare.json); reserved fields come back in any value (mask = 1).
 EnvOf(i) == [ver |-> i.ver, flags |-> i.flags, cnt |-> i.cnt, pick |-> i.pick, hdr |-> i.hdr, rb |-> 0, rl |-> 0]
-Wrapped(i, r) == IF i.wrap = "none" THEN r
-                 ELSE [b |-> BE(8 + Len(r.b), 4) \o TypeCode(Parent(i.box)) \o r.b, m |-> Zeros(8) \o r.m, f |-> r.f]
+\* nesting: alone; the only child of its usual container; first child of that container, FOLLOWED by a sibling
+\* (a decoder of an empty or short box must stop at its own end and leave the sibling to the parent)
+FreeSibling == <<0, 0, 0, 10, 102, 114, 101, 101, 1, 2>>
+Wrapped(i, r) == CASE i.wrap = "none" -> r
+                   [] i.wrap = "parent" -> [b |-> BE(8 + Len(r.b), 4) \o TypeCode(Parent(i.box)) \o r.b, m |-> Zeros(8) \o r.m, f |-> r.f]
+                   [] i.wrap = "sibling" -> [b |-> BE(18 + Len(r.b), 4) \o TypeCode(Parent(i.box)) \o r.b \o FreeSibling,
+                                             m |-> Zeros(8) \o r.m \o Zeros(10), f |-> r.f]
 InputOf(i) == Wrapped(i, BoxBytes(i.box, EnvOf(i)))
 ExpectOf(i) == Wrapped(i, BoxBytes(i.box, [EnvOf(i) EXCEPT !.hdr = IF Layout(i.box).type = "mdat" THEN i.hdr ELSE "s32"]))
 
